@@ -192,6 +192,13 @@ def r5(ctx, prog):
     ctx.floor(R, 3)
 
 
+def r6(ctx, prog):
+    R = ctx.rule("C13.R6", "lazily committed arenas (arena_eager_commit=0, purged ranges): a claimed range with any uncommitted block is committed as a whole before it is "
+                           "handed out — the committed-bitmap count is not a prefix length")
+    shared.arena_commit_whole_range(ctx, R, prog)
+    ctx.floor(R, 1)
+
+
 def run(ctx):
     ctx.explanation = ("Static decision of the code-shaped half of C13 ('purging never touches live data'): orientation of the conservative/liberal rounding and of every caller's "
                        "constant, purge⊆commit intersection and clearing on commit, commit-before-use dominance, the in-use bracket around arena purges and the order of "
@@ -200,7 +207,7 @@ def run(ctx):
     for c in (["REL"] if ctx.tier == "quick" else ["REL", "SEC", "DBG"]):
         prog = ctx.prog(c)
         n0 = len(ctx.instances)
-        r1(ctx, prog); r2(ctx, prog); r3(ctx, prog); r4(ctx, prog); r5(ctx, prog)
+        r1(ctx, prog); r2(ctx, prog); r3(ctx, prog); r4(ctx, prog); r5(ctx, prog); r6(ctx, prog)
         if c != "REL":
             for i in ctx.instances[n0:]:
                 i["site"] += " [%s]" % c
